@@ -560,6 +560,13 @@ func (p *Proxy) handleConnectRequest(ctx *Context, req *http.Request, session *S
 	// not to its lifetime, so every byte that arrives from either end renews it.
 	active := func() { conn.SetDeadline(time.Now().Add(p.timeout)) }
 
+	// The deadline in force right now was armed in handleLoop before the CONNECT
+	// request was read: what is left of it is the timeout minus the time the
+	// client connection sat idle before the request. The tunnel's silence starts
+	// now, with the answer to the CONNECT, not when the connection was accepted
+	// or the previous exchange ended.
+	active()
+
 	copySync := func(w io.Writer, r io.Reader, donec chan<- bool) {
 		// Handed w itself, io.Copy ends up in bufio.Writer.ReadFrom, which passes
 		// bytes on as they arrive only if the connection behind w implements
